@@ -3,6 +3,7 @@
 package main
 
 import (
+	"regexp"
 	"encoding/json"
 	"flag"
 	"fmt"
@@ -82,6 +83,17 @@ func main() {
 		scen.RunDeadline = dl
 	}
 	items := p.Items(*tier)
+	if f := os.Getenv("ZOGMC_ITEMS"); f != "" {
+		// development aid: run only the items whose name matches (the driver then reports exhaustive=false)
+		re := regexp.MustCompile(f)
+		var keep []scen.Item
+		for _, it := range items {
+			if re.MatchString(it.Name) {
+				keep = append(keep, it)
+			}
+		}
+		items = keep
+	}
 	st := mc.NewStats()
 	part := &Part{Prop: *prop, Tier: *tier, Shard: *shard, Items: len(items), PerItem: map[string]int64{}, Rule: p.Rule, Assumptions: p.Assumptions, Floor: p.Floor}
 	if p.Bound != nil {
